@@ -108,6 +108,76 @@ Proof.
   destruct (Nat.eqb m n) eqn:E; auto. exfalso. apply Hx. exists m. split; auto. apply Nat.eqb_neq. auto.
 Qed.
 
+(* a loadable entry is returned as it is *)
+Lemma fresh_loads_l st p n c :
+  procs st p = None -> load orc (files st (Final So n)) = LOk c ->
+  outcome_of (solo New orc FUEL (step New orc st (Spawn p n)) p) p = Some (Ok c).
+Proof.
+  intros HN EL.
+  set (st1 := setproc st p (mkproc n PMkdir n)).
+  assert (E1 : step New orc st (Spawn p n) = st1) by (unfold step; rewrite HN; reflexivity).
+  assert (H1 : procs st1 p = Some (mkproc n PMkdir n)).
+  { unfold st1. rewrite procs_setproc, Nat.eqb_refl. reflexivity. }
+  set (st2 := goto (write st1 CacheDir (Complete 0)) p (mkproc n PMkdir n) PImport).
+  assert (E2 : step New orc st1 (Step p) = st2) by (unfold step; rewrite H1; reflexivity).
+  assert (H2 : procs st2 p = Some (mkproc n PImport n)).
+  { unfold st2, goto. rewrite procs_setproc, Nat.eqb_refl. reflexivity. }
+  assert (F2 : files st2 (Final So n) = files st (Final So n)).
+  { unfold st2, goto, write, setproc; simpl. rewrite upd_other by congruence. unfold st1; simpl. auto. }
+  set (st3 := goto st2 p (mkproc n PImport n) (PDone (Ok c))).
+  assert (E3 : step New orc st2 (Step p) = st3).
+  { unfold step. rewrite H2. unfold step_proc. simpl ppc. simpl pform. cbv beta iota.
+    rewrite F2, EL. reflexivity. }
+  assert (H3 : procs st3 p = Some (mkproc n (PDone (Ok c)) n)).
+  { unfold st3, goto. rewrite procs_setproc, Nat.eqb_refl. reflexivity. }
+  rewrite E1. change FUEL with (S (S 26)).
+  rewrite (solo_S orc), E2. rewrite (solo_S orc), E3.
+  rewrite (solo_done orc New 26 st3 p _ (Ok c) H3 eq_refl).
+  unfold outcome_of. rewrite H3. reflexivity.
+Qed.
+
+(* a rejected or absent entry is rebuilt, whatever the entries of the other forms look like *)
+Lemma settled_forget n st : settled st -> settled (forget_others n st).
+Proof. intros H p q HP. exact (H p q HP). Qed.
+
+Lemma tmp_forget n st :
+  (forall p, procs st p = None -> forall r, files st (Tmp p r) = Absent) ->
+  (forall p, procs (forget_others n st) p = None -> forall r, files (forget_others n st) (Tmp p r) = Absent).
+Proof. intros H p HP r. exact (H p HP r). Qed.
+
+Lemma final_forget n st :
+  load orc (files st (Final So n)) = LErr ->
+  forall m, final_ok orc m (files (forget_others n st) (Final So m)).
+Proof.
+  intros EL m. unfold forget_others; simpl. destruct (Nat.eqb m n) eqn:E; simpl; auto.
+  apply Nat.eqb_eq in E. subst m.
+  unfold load in EL. destruct (files st (Final So n)) as [|k c|c]; simpl; auto; try discriminate.
+  destruct (orc k); try discriminate. auto.
+Qed.
+
+Lemma spawn_fresh st p n :
+  procs st p = None -> step New orc st (Spawn p n) = setproc st p (mkproc n PMkdir n).
+Proof. intros HN. unfold step. rewrite HN. reflexivity. Qed.
+
+Lemma fresh_rebuilds_l st p n :
+  settled st ->
+  (forall p, procs st p = None -> forall r, files st (Tmp p r) = Absent) ->
+  procs st p = None -> load orc (files st (Final So n)) = LErr ->
+  outcome_of (solo New orc FUEL (step New orc st (Spawn p n)) p) p = Some (Ok n).
+Proof.
+  intros HS HT HN EL.
+  assert (HN' : procs (forget_others n st) p = None) by exact HN.
+  pose proof (recovery_every_directory_l orc (forget_others n st) p n (settled_forget n st HS)
+                (tmp_forget n st HT) (final_forget n st EL) HN') as HR.
+  rewrite (spawn_fresh _ p n HN') in HR. rewrite (spawn_fresh _ p n HN).
+  assert (HA : agree n (setproc st p (mkproc n PMkdir n)) (setproc (forget_others n st) p (mkproc n PMkdir n))).
+  { apply agree_setproc, agree_forget. }
+  assert (HP : procs (setproc st p (mkproc n PMkdir n)) p = Some (mkproc n PMkdir n)).
+  { rewrite procs_setproc, Nat.eqb_refl. reflexivity. }
+  pose proof (ag_procs _ _ _ (agree_solo n FUEL _ _ p _ HA HP eq_refl) p) as HS2.
+  revert HR. unfold outcome_of. rewrite HS2. auto.
+Qed.
+
 (* the outcome of a fresh request, for every directory content *)
 Lemma fresh_request_outcome_l st p n :
   settled st ->
@@ -119,43 +189,9 @@ Lemma fresh_request_outcome_l st p n :
 Proof.
   intros HS HT HN.
   destruct (load orc (files st (Final So n))) as [c| |] eqn:EL.
-  - (* loads: whatever it is is returned (LOk) *)
-    set (st1 := setproc st p (mkproc n PMkdir n)).
-    assert (E1 : step New orc st (Spawn p n) = st1) by (unfold step; rewrite HN; reflexivity).
-    assert (H1 : procs st1 p = Some (mkproc n PMkdir n)).
-    { unfold st1. rewrite procs_setproc, Nat.eqb_refl. reflexivity. }
-    set (st2 := goto (write st1 CacheDir (Complete 0)) p (mkproc n PMkdir n) PImport).
-    assert (E2 : step New orc st1 (Step p) = st2) by (unfold step; rewrite H1; reflexivity).
-    assert (H2 : procs st2 p = Some (mkproc n PImport n)).
-    { unfold st2, goto. rewrite procs_setproc, Nat.eqb_refl. reflexivity. }
-    assert (F2 : files st2 (Final So n) = files st (Final So n)).
-    { unfold st2, goto, write, setproc; simpl. rewrite upd_other by congruence. unfold st1; simpl. auto. }
-    set (st3 := goto st2 p (mkproc n PImport n) (PDone (Ok c))).
-    assert (E3 : step New orc st2 (Step p) = st3).
-    { unfold step. rewrite H2. unfold step_proc. simpl ppc. simpl pform. cbv beta iota.
-      rewrite F2, EL. reflexivity. }
-    assert (H3 : procs st3 p = Some (mkproc n (PDone (Ok c)) n)).
-    { unfold st3, goto. rewrite procs_setproc, Nat.eqb_refl. reflexivity. }
-    rewrite E1. change FUEL with (S (S 26)).
-    rewrite (solo_S orc), E2. rewrite (solo_S orc), E3.
-    rewrite (solo_done orc New 26 st3 p _ (Ok c) H3 eq_refl).
-    unfold outcome_of. rewrite H3. reflexivity.
-  - (* rejected or absent: rebuilt, whatever the other entries look like *)
-    set (st' := forget_others n st).
-    assert (HA : agree n (step New orc st (Spawn p n)) (step New orc st' (Spawn p n))).
-    { unfold step. unfold st' at 1. simpl procs. rewrite HN. apply agree_setproc, agree_forget. }
-    assert (HP : procs (step New orc st (Spawn p n)) p = Some (mkproc n PMkdir n)).
-    { unfold step. rewrite HN. rewrite procs_setproc, Nat.eqb_refl. reflexivity. }
-    pose proof (agree_solo n FUEL _ _ p _ HA HP eq_refl) as HS2.
-    unfold outcome_of. rewrite (ag_procs _ _ _ HS2 p).
-    change (outcome_of (solo New orc FUEL (step New orc st' (Spawn p n)) p) p = Some (Ok n)).
-    apply recovery_every_directory_l; auto.
-    intros m. unfold st'; simpl. destruct (Nat.eqb m n) eqn:E; simpl; auto.
-    apply Nat.eqb_eq in E. subst m.
-    unfold load in EL. destruct (files st (Final So n)) as [|k c|c]; simpl; auto; try discriminate.
-    destruct (orc k); try discriminate. auto.
-  - (* dlopen crashes *)
-    unfold load in EL. destruct (files st (Final So n)) as [|k c|c] eqn:EF; try discriminate.
+  - apply fresh_loads_l; auto.
+  - apply fresh_rebuilds_l; auto.
+  - unfold load in EL. destruct (files st (Final So n)) as [|k c|c] eqn:EF; try discriminate.
     destruct (orc k) eqn:EO; try discriminate.
     apply (crash_class_kills_l orc st p n k c); auto.
 Qed.
